@@ -20,9 +20,9 @@ PROPS = {
     'C08': dict(mc=[('MC_BigNat', None)], math=['arith'], level='exploration'),
     'C09': dict(mc=[('MC_Pool', None)], world=['matrix', 'random']),
     'C10': dict(mc=[('MC_Pool', None), ('MC_Math', ['belief', 'spread'])], math=['maxspread'], world=['random']),
-    'C11': dict(mc=[('MC_Router', None)], world=['random']),
-    'C12': dict(mc=[('MC_Pool', None), ('MC_Math', ['reverse'])], math=['reverse'], world=['random']),
-    'C13': dict(mc=[('MC_Router', None)], world=['random']),
+    'C11': dict(mc=[('MC_Router', None)], world=['routes', 'random']),
+    'C12': dict(mc=[('MC_Pool', None), ('MC_Math', ['reverse'])], math=['reverse'], world=['routes', 'random']),
+    'C13': dict(mc=[('MC_Router', None)], world=['routes', 'random']),
     'C14': dict(mc=[('MC_Pool', None), ('MC_Factory', None)], world=['matrix', 'random']),
     'C15': dict(mc=[('MC_Pool', None), ('MC_Math', ['slip'])], math=['slip'], world=['random']),
     'C16': dict(mc=[('MC_Factory', None), ('MC_System', None)], world=['registry', 'matrix']),
@@ -36,6 +36,7 @@ PROPS = {
 WORLD_N = {
     'random':   {'quick': (14, 80), 'thorough': (150, 120)},
     'matrix':   {'quick': (3, 0),   'thorough': (30, 0)},
+    'routes':   {'quick': (3, 0),   'thorough': (30, 0)},
     'registry': {'quick': (8, 40),  'thorough': (80, 40)},
     'withdraw': {'quick': (16, 0),  'thorough': (160, 0)},
 }
@@ -47,8 +48,8 @@ PROOFS = {
             'FloorSwapKeepsProduct (what an integer-floor swap guarantees)'],
     'C03': ['ProvideKeepsShareValue', 'WithdrawKeepsShareValue', 'FloorSwapKeepsProduct'],
     'C04': ['RefundNeverMore', 'RefundAtMostDustLess'],
-    'C05': ['ShareNeverMore'],
-    'C06': ['GrossUpperBound'],
+    'C05': ['ShareNeverMore', 'ShareAtMostOneLess'],
+    'C06': ['GrossUpperBound', 'CommissionIdentity'],
 }
 
 MATH_N = {'quick': 1600, 'thorough': 24000}
